@@ -294,6 +294,82 @@ def mapDe : Ty → VarSet → Except DeErr Val
   | .struct fs, vars => deStruct fs vars
   | .bare _, _ => .error .shape
 
+/-! ### `#[serde(flatten)]` inside a parameter struct
+
+serde's derived visitor for a struct with a flattened member reads the known
+(outer) fields directly and *buffers* every other entry: the value is taken
+with `deserialize_any`, which `MapDeserializer` answers with `visit_str` (the
+raw string, never a guessed number or boolean).  After the loop the outer
+fields are finished, and the flattened struct is deserialised from the
+buffer by serde's `ContentDeserializer`: a buffered string can fill a string,
+a char, a unit-variant enum or an `Option` of those; it is refused ("invalid
+type: string") for a boolean, an integer or a sequence. -/
+
+/-- A flattened member read from the buffered string. -/
+def deContentScalar : STy → Bytes → Except DeErr SVal
+  | .string, s => .ok (.str s)
+  | .char, s => match parseChar s with | some c => .ok (.chr c) | none => .error .parse
+  | .enum vs, s => if vs.contains s then .ok (.variant s) else .error .variant
+  | .bool, _ => .error .shape
+  | .uint _, _ => .error .shape
+  | .int _, _ => .error .shape
+
+def deContentField : FTy → Bytes → Except DeErr FVal
+  | .scalar t, s => match deContentScalar t s with | .ok v => .ok (.scalar v) | .error e => .error e
+  | .option t, s => match deContentScalar t s with | .ok v => .ok (.some v) | .error e => .error e
+  | .seq _, _ => .error .shape
+  | .nested, _ => .error .shape
+
+/-- The outer `visit_map` loop: known outer keys are deserialised at once,
+every other entry is buffered as a string (a `Components` value cannot be
+buffered: "cannot deserialize sequence as a single value"). -/
+def deFlatEntries (outer : List (Bytes × FTy)) : VarSet → List (Bytes × FVal) → List (Bytes × Bytes) →
+    Except DeErr (List (Bytes × FVal) × List (Bytes × Bytes))
+  | [], got, buf => .ok (got, buf)
+  | (k, v) :: rest, got, buf =>
+    match lookupField outer k with
+    | none =>
+      match v with
+      | .str s => deFlatEntries outer rest got (buf ++ [(k, s)])
+      | .comps _ => .error .shape
+    | some ft =>
+      if (lookupGot got k).isSome then .error .duplicate
+      else
+        match deField ft v with
+        | .error e => .error e
+        | .ok fv => deFlatEntries outer rest ((k, fv) :: got) buf
+
+/-- The flattened struct's `visit_map` over the buffer, in buffer order; keys
+that are not members of the flattened struct are left alone. -/
+def deFlatInner (inner : List (Bytes × FTy)) : List (Bytes × Bytes) → List (Bytes × FVal) →
+    Except DeErr (List (Bytes × FVal))
+  | [], got => .ok got
+  | (k, s) :: rest, got =>
+    match lookupField inner k with
+    | none => deFlatInner inner rest got
+    | some ft =>
+      if (lookupGot got k).isSome then .error .duplicate
+      else
+        match deContentField ft s with
+        | .error e => .error e
+        | .ok fv => deFlatInner inner rest ((k, fv) :: got)
+
+/-- `from_map::<T, VariableValue>` for `struct T { outer…, #[serde(flatten)] inner: U }`:
+the value is the outer fields followed by the flattened ones. -/
+def mapDeFlat (outer inner : List (Bytes × FTy)) (vars : VarSet) : Except DeErr Val :=
+  match deFlatEntries outer vars [] [] with
+  | .error e => .error e
+  | .ok (got, buf) =>
+    match finish got outer with
+    | .error e => .error e
+    | .ok o =>
+      match deFlatInner inner buf [] with
+      | .error e => .error e
+      | .ok gi =>
+        match finish gi inner with
+        | .error e => .error e
+        | .ok i => .ok (o ++ i)
+
 /-! ## 3. Paths: route template, variables, `Path<T>` -/
 
 /-- `PathSegment` of the endpoint's route template. -/
